@@ -121,7 +121,19 @@ def run(module, cfg, workdir, workers=16, timeout=1800, simulate=None, depth=Non
 def _parse(res):
     cov_action = re.compile(r"^<(\w+) line \d+, col \d+ to line \d+, col \d+ of module (\w+)>: (\d+):(\d+)")
     in_err = False
+    pending = None
     for line in res.out.splitlines():
+        # TLC wraps long tuples over several lines: join until the brackets balance
+        if pending is not None:
+            pending += " " + line.strip()
+            if pending.count("<<") > pending.count(">>"):
+                continue
+            line = re.sub(r'^<<\s+"', '<<"', pending)
+            line = re.sub(r'\s+>>$', '>>', line)
+            pending = None
+        elif line.startswith("<< \"") and line.count("<<") > line.count(">>"):
+            pending = line.rstrip()
+            continue
         if line.startswith("<<\""):
             t = _parse_tuple_line(line.rstrip())
             if t is not None:
